@@ -47,3 +47,12 @@ M.contract('exactly_lib.type_val_deps.types.program.ddv.program:ProgramDdv.__ini
                self._command is command and self._stdin is stdin and self._transformations is transformations,
            },
            raises_only=())
+
+
+# C03 rests on the standalone processor building its executor without effects (contract in C02_outcome.py)
+def _share():
+    from contracts.common import share_contracts
+    share_contracts('C03', 'contracts.C02_outcome', lambda q: q.endswith(':Processor._executor'))
+
+
+M.after_load = _share
